@@ -548,23 +548,33 @@ def rule_noloss(run):
     # the skip guard, enumerated over its three boolean atoms
     loops = [n for n in walk_no_nested(w.node) if isinstance(n, ast.For) and norm(n.iter) == 'self._sections']
     key = 't2data.write :: main-file guard'
-    if len(loops) != 1 or not isinstance(loops[0].body[0], ast.If):
-        run.unknown(key, 'guard not found', where=w.where()); return
-    g = loops[0].body[0].test
-    from ..consteval import Interp
+    if len(loops) != 1 or not isinstance(loops[0].target, ast.Name):
+        run.unknown(key, 'loop over self._sections not found', where=w.where()); return
+    # one iteration of the loop body is interpreted for each of the 8 combinations of its three boolean inputs; the
+    # section writer is a marker, so the shape of the guard (one condition, guard clauses with continue, ...) does not matter
+    from ..consteval import Interp, Obj, _Continue, _Break
+    kwvar = loops[0].target.id
+    msvars = sorted(set(n.targets[0].id for n in walk_no_nested(w.node) if isinstance(n, ast.Assign) and isinstance(n.targets[0], ast.Name)
+                        and isinstance(n.value, ast.List) and (not n.value.elts or all(const_str(e) in ('ELEME', 'CONNE') for e in n.value.elts))))
+    if len(msvars) != 1:
+        run.unknown(key, 'the list of sections written to the mesh file is not identified (%s)' % msvars, where=w.where()); return
     ok = True
     cases = []
+    g = loops[0]
     for in_mesh in (False, True):
         for in_xp in (False, True):
             for echo in (False, True):
-                class L(list): pass
-                env = {'keyword': 'K', 'mesh_sections': ['K'] if in_mesh else []}
-                src = norm(g).replace('self.extra_precision', 'XP').replace('self.echo_extra_precision', 'ECHO')
+                written = []
+                def marker(*a, **k): written.append(1)
+                so = Obj()
+                so.attrs.update({'extra_precision': ['K'] if in_xp else [], 'echo_extra_precision': echo, 'write_fn': {'K': marker}})
+                it = Interp({kwvar: 'K', msvars[0]: ['K'] if in_mesh else [], 'self': so, 'outfile': None}, extra={'marker': marker})
                 try:
-                    v = bool(Interp({'keyword': 'K', 'mesh_sections': ['K'] if in_mesh else [], 'XP': ['K'] if in_xp else [],
-                                     'ECHO': echo}).expr(ast.parse(src, mode='eval').body))
+                    try: it.block(g.body)
+                    except (_Continue, _Break): pass
                 except AnalysisError as e:
                     run.unknown(key, str(e), where=w.where(g)); return
+                v = bool(written)
                 want = (not in_mesh) and ((not in_xp) or echo)
                 cases.append((in_mesh, in_xp, echo, v))
                 if v != want: ok = False
